@@ -31,6 +31,14 @@ def FLOORS(tier):
                 f["arity:%s:%d" % (m, ar)] = 5 if q else 150
     return f
 
+_FLOORS_BEFORE_ROUND9 = FLOORS
+
+
+def FLOORS(tier):      # noqa: F811 -- floors of the input classes added in round 9 (a quarter of what seed 0 observes in the quick tier)
+    f = _FLOORS_BEFORE_ROUND9(tier)
+    f.update({'between-gates:update-into-empty': 62, 'between-gates:update-into-other-kind': 59, 'operand-edited-afterwards-checks': 1464})
+    return f
+
 
 def case(ctx, rng, idx):
     labs = gen.labels(rng, rng.randint(2, 6))
